@@ -43,6 +43,12 @@ class ThreadProxy:
         self.thread = thread
 
     def __eq__(self, other):
+        if (isinstance(self.thread, threading.Thread)
+                and isinstance(other.thread, threading.Thread)):
+            # ``threading`` keeps one object per thread for the whole
+            # life of the thread while idents are reused as soon as a
+            # thread has ended: compare the objects.
+            return self.thread is other.thread
         return self.thread.ident == other.thread.ident
 
     def __repr__(self):
